@@ -1290,7 +1290,7 @@ struct StimerModel : mc::Model
     long start = 0, interval = 1;
     const vector<SOp> &ops;
     long base;
-    explicit StimerModel(long base_ = 0) : horizon(mc::thorough() ? 30 : 16), base(base_), ops(table())
+    explicit StimerModel(long base_ = 0, long horizon_ = 0) : horizon(horizon_ ? horizon_ : (mc::thorough() ? 30 : 16)), base(base_), ops(table())
     {
         t = (struct stimer_head *)malloc(sizeof *t);
         memset(t, 0x5A, sizeof *t);
@@ -1412,6 +1412,77 @@ struct StimerModel : mc::Model
     }
 };
 
+// ================================================================ long histories on ONE object
+// The searches above merge states that look equal, so no object ever sees more than a handful of
+// operations.  Here ONE deterministic history of >= 140000 (thorough 600000) operations runs on the same
+// objects with the full oracle after every operation: timer t0 (interval 1) is planned once and then only
+// re-armed by exec - more than 65536 (thorough 262144) consecutive re-arms without a re-plan - next to a
+// second timer t1 that is planned, unplanned, re-created and re-planned all the time.
+template <class Spec> static void long_history_timers()
+{
+    typedef TimerModelT<Spec> M;
+    (void)mc::choose(1);
+    const long steps = mc::thorough() ? 600000 : 140000;
+    const bool uns = M::UNS;
+    mc::describe("one history of %ld operations on one manager and two timers; t0 is only ever re-armed by exec", steps);
+    M m(2, -1, (int)S_UNPLAN_O2, uns ? 1000 : 0);
+    const vector<Op> &ops = ops_for(2, (int)S_UNPLAN_O2, uns);
+    vector<int> execs, others;
+    int plan_t0 = -1;
+    for (int i = 0; i < (int)ops.size(); i++)
+    {
+        const Op &p = ops[i];
+        if (p.kind == K_EXEC)
+            execs.push_back(i);
+        else if (p.t == 1 && (p.kind != K_RECREATE || p.a == S_NOP || p.a == S_UNPLAN_SELF)) // scripts of t1 that leave t0 alone
+            others.push_back(i);
+        if (p.kind == K_PLAN3 && p.t == 0 && p.a == 0 && p.b == 1)
+            plan_t0 = i;
+    }
+    if (plan_t0 < 0 || execs.size() != 4 || others.size() < 10)
+        mc::harness_error("long history: alphabet not as expected");
+    m.apply(plan_t0);
+    long rearms = 0, done = 1;
+    for (long i = 0; i < steps && !mc::case_has_violation(); i++)
+    {
+        int op = (i & 1) ? others[(size_t)((i / 2) * 7) % others.size()] : execs[(size_t)((i / 2) * 3) % 4]; // strides coprime to the sizes
+        int64_t before = m.now;
+        if (m.apply(op))
+            done++;
+        rearms += m.now - before; // interval 1: one re-arm of t0 per tick
+        if ((i & 1023) == 0)
+            mc::tick();
+    }
+    if (!mc::case_has_violation() && rearms < (mc::thorough() ? 262144 : 65536 + 1000))
+        mc::harness_error("long history: only %ld re-arms", rearms);
+    mc::count("consecutive_rearms_of_one_timer", rearms);
+    mc::outcome(mc::fmt("%ld", rearms > 65536 ? 1L : 0L));
+    mc::more_cases((uint64_t)done - 1, (uint64_t)done - 1);
+    mc::nontrivial();
+}
+// the same for the flag-style timer: one stimer_head walked through its whole alphabet for >= 140000 operations
+static void long_history_stimer()
+{
+    (void)mc::choose(1);
+    const long steps = mc::thorough() ? 800000 : 200000;
+    mc::describe("one history of %ld operations on one stimer_head", steps);
+    StimerModel m(0, 1L << 40);
+    int n = m.nops();
+    long done = 0;
+    for (long i = 0; i < steps && !mc::case_has_violation(); i++)
+    {
+        if (m.apply((int)((i * 11) % n))) // 11 is coprime to the 28 operations
+            done++;
+        if ((i & 1023) == 0)
+            mc::tick();
+    }
+    if (!mc::case_has_violation() && (done < steps / 2 || m.now < 70000))
+        mc::harness_error("long stimer history: %ld operations done, clock %ld", done, m.now);
+    mc::outcome(mc::fmt("%d", (int)(m.now > 65536)));
+    mc::more_cases((uint64_t)done - 1, (uint64_t)done - 1);
+    mc::nontrivial();
+}
+
 #ifndef C16_DEPTH_Q
 #define C16_DEPTH_Q 5
 #define C16_DEPTH_T 6
@@ -1435,8 +1506,16 @@ MC_INIT
     mc::add_bfs("timer_manager_3_uint32_asan", [] { return std::unique_ptr<mc::Model>(new TimerModelT<igris::timer_spec<uint32_t>>(3, -1, 0, 1000)); }, o);
     mc::add_bfs("stimer_histories_fixpoint_asan", [] { return std::unique_ptr<mc::Model>(new StimerModel); });
     mc::add_check("unsigned_time_across_wrap_asan", wrap_checks);
+    mc::add_check("long_history_int64_asan", long_history_timers<igris::timer_spec<int64_t>>);
+    mc::add_check("long_history_uint32_asan", long_history_timers<igris::timer_spec<uint32_t>>);
+    mc::add_check("long_history_stimer_asan", long_history_stimer);
 #else
     mc::add_check("stimer_due_rule", stimer_checks);
+    mc::add_check("long_history_int64", long_history_timers<igris::timer_spec<int64_t>>);
+    mc::add_check("long_history_uint32", long_history_timers<igris::timer_spec<uint32_t>>);
+    mc::add_check("long_history_uint64", long_history_timers<igris::timer_spec<uint64_t>>);
+    mc::add_check("long_history_int32", long_history_timers<igris::timer_spec<int32_t>>);
+    mc::add_check("long_history_stimer", long_history_stimer);
     mc::add_bfs("stimer_histories_fixpoint", [] { return std::unique_ptr<mc::Model>(new StimerModel); });
     mc::add_check("stimer_due_rule_large_operands", stimer_large_checks);
     // the same histories with the clock starting just below 2^31, 2^32 and near LONG_MAX
@@ -1469,7 +1548,7 @@ MC_INIT
         b.depth_thorough = 4; // the deep runs are timer_manager_3/4; these repeat the alphabet in another instantiation / at another clock
         b.max_states = 40000000;
         mc::BfsOpts u = b;
-        u.depth_quick = 5;
+        u.depth_quick = 4;
         u.depth_thorough = 5;
         mc::add_bfs("timer_manager_3_uint32", [] { return std::unique_ptr<mc::Model>(new TimerModelT<igris::timer_spec<uint32_t>>(3, -1, 0, 1000)); }, u);
         mc::add_bfs("timer_manager_3_uint64", [] { return std::unique_ptr<mc::Model>(new TimerModelT<igris::timer_spec<uint64_t>>(3, -1, 0, 1000)); }, u);
